@@ -132,6 +132,13 @@ static void gen_case(case_t *c, uint64_t seed) {
         else { s.psi_1b = (idx_t)rnd(&w, (uint64_t)(minlen + 1)); s.psi_1e = (idx_t)rnd(&w, (uint64_t)(minlen + 1));
                s.psi_2b = (idx_t)rnd(&w, (uint64_t)(minlen + 1)); s.psi_2e = (idx_t)rnd(&w, (uint64_t)(minlen + 1)); }
     }
+    if (s.window != 0) {
+        /* The kernels initialise psi_2b+1 cells of a rolling buffer that is only ldiff+2*window+1 wide: with a band
+           narrower than psi they write outside their own allocation (serial and parallel alike).  That is an input-
+           quantified memory-safety matter (C08, not decided here); the workload stays inside psi <= window. */
+        if (s.psi_1b > s.window) s.psi_1b = s.window; if (s.psi_1e > s.window) s.psi_1e = s.window;
+        if (s.psi_2b > s.window) s.psi_2b = s.window; if (s.psi_2e > s.window) s.psi_2e = s.window;
+    }
     if (rnd(&w, 4) == 0) s.use_pruning = true;
     if (rnd(&w, 16) == 0) s.only_ub = true;
     if (rnd(&w, 3) == 0) s.inner_dist = 1;
@@ -402,11 +409,11 @@ static void account(const case_t *c, const result_t *r) {
     if (ser_len == 0) A.empty_block++;
     if (r->info_settings) A.info_settings++; if (r->info_block) A.info_block++;
     long leaks = 0; int hc = simomp_heap_check(&leaks);
-    if (hc & 4) A.leaks += (uint64_t)leaks; if (hc & 3) A.heapdamage++;
+    if (hc & 4) A.leaks += (uint64_t)leaks; if (hc & 3) { A.heapdamage++; if (getenv("C07_DUMP_HEAPDAMAGE")) { FILE *f = fopen(getenv("C07_DUMP_HEAPDAMAGE"), "a"); if (f) { write_case(f, c, "heap-damage-info", 0, 0); fclose(f); } } }
     fnv(&A.digest, r->acc); fnv(&A.digest, r->sched); fnv(&A.digest, r->outhash);
 }
 
-static FILE *fsum, *fhash, *fdig; static char path_case[4096];
+static FILE *fsum, *fhash, *fdig; static char path_case[4096], path_sample[4096]; static int sample_written;
 
 static void open_outputs(const char *outdir, const char *tag) {
     char p[4096];
@@ -414,6 +421,7 @@ static void open_outputs(const char *outdir, const char *tag) {
     snprintf(p, sizeof p, "%s/%s.hashes", outdir, tag); fhash = fopen(p, "wb");
     snprintf(p, sizeof p, "%s/%s.digests", outdir, tag); fdig = fopen(p, "w");
     snprintf(path_case, sizeof path_case, "%s/%s.case", outdir, tag);
+    if (getenv("C07_SAMPLE")) snprintf(path_sample, sizeof path_sample, "%s/%s.sample", outdir, tag);
     if (!fsum || !fhash || !fdig) harness_die("cannot open output files");
 }
 
@@ -441,6 +449,10 @@ static void note_run(uint64_t subseed, const case_t *c, const result_t *r, int p
     if (st->threads_ran >= 2 && st->switches >= 1 && ser_len > 0) {
         uint64_t h = r->sched; fnv(&h, (uint64_t)c->fn); fnv(&h, (uint64_t)simomp_threads_used());
         fwrite(&h, sizeof h, 1, fhash); A.nontrivial++;
+        if (!sample_written && path_sample[0] && c->ns <= 4 && simomp_trace_nswitch() <= 40) {
+            FILE *f = fopen(path_sample, "w");
+            if (f) { write_case(f, c, NULL, subseed, 1); fclose(f); sample_written = 1; }
+        }
     }
 }
 
